@@ -114,13 +114,18 @@ def _kind_of_arm(body_src):
 
 
 def bounded_case_arms(tier, seed):
-    from props import corpus_run
+    import os
+    from props import corpus_run, pkgcheck
     base, gens = corpus_run.generate_corpus(tier, seed)
     n, failures = 0, []
     try:
         for g in gens:
             if g.error:
                 continue
+            for f_, ln_, name_ in pkgcheck.unbound_names(g):
+                if "/endpoints/" in f_.replace(os.sep, "/") or f_.replace(os.sep, "/").endswith("client.py"):
+                    failures.append({"id": f"bounded:unbound-name:{g.name.split('@')[0]}:{os.path.basename(f_)}:{name_}",
+                                     "detail": f"{g.name}: {f_}:{ln_} uses `{name_}`, which nothing in that module binds (NameError when the call reaches it)", "input": {"shape": g.name}})
             pairs, _ = emitted.match_ops(g)
             for em, o in pairs:
                 arms = {}
